@@ -242,15 +242,20 @@ RenderLayer ==
                                   !.need = {BlockOf(t) : t \in LayerTiles(lay, r.L, clip) \ cached}]
   /\ UNCHANGED <<cached, ups, wrs, reply, nreq>>
 
-\* one upstream request for a meta block; all tiles of the block that lie in the grid will be stored
+\* one upstream request for a meta block; all tiles of the block that lie in the grid will be stored.
+\* Blocks are created one after the other (concurrent_tile_creators = 1): the next block is requested when the
+\* tiles of the previous one have been stored.
 Fetch(b) ==
-  /\ b \in pend.need
+  /\ b \in pend.need /\ pend.tostore = {}
   /\ ups' = ups \cup {b}
-  /\ pend' = [pend EXCEPT !.need = @ \ {b}, !.tostore = @ \cup BlockTiles(b)]
+  /\ pend' = [pend EXCEPT !.need = @ \ {b}, !.tostore = BlockTiles(b)]
   /\ UNCHANGED <<cached, wrs, reply, nreq>>
 
+\* the tiles of a block are stored in the order of MetaGrid._meta_tile_list: row by row starting with the
+\* northernmost row, west to east
+Before(a, b) == IF a[3] # b[3] THEN (IF GridOrigin = "ul" THEN a[3] < b[3] ELSE a[3] > b[3]) ELSE a[2] < b[2]
 Store(a) ==
-  /\ a \in pend.tostore
+  /\ a \in pend.tostore /\ \A b \in pend.tostore \ {a} : Before(a, b)
   /\ cached' = cached \cup {a}
   /\ wrs' = wrs \cup {a}
   /\ pend' = [pend EXCEPT !.tostore = @ \ {a}]
@@ -268,9 +273,13 @@ Forget ==
   /\ reply' = NoReply /\ ups' = {} /\ wrs' = {}
   /\ UNCHANGED <<cached, pend, nreq>>
 
+\* the request universe of the model checker: the full window of plain integer addresses in the layer's format,
+\* and everything else (other formats, dimension values, huge / negative-huge / non-numeric tokens) at the
+\* positions listed in VaryAt
+PlainTok(c) == c.k = "int" /\ c.v > -1000000 /\ c.v < 1000000
 TileUniverse ==
   {q \in [f : Flavours, z : ZToks, x : XToks, y : YToks, fmt : Fmts, d : DimToks] :
-      /\ (q.fmt # LayerFormat \/ q.d # "" \/ ~IsNum(q.x) \/ ~IsNum(q.y)) => <<q.x, q.y>> \in VaryAt
+      /\ (q.fmt # LayerFormat \/ q.d # "" \/ ~PlainTok(q.x) \/ ~PlainTok(q.y) \/ ~PlainTok(q.z)) => <<q.x, q.y>> \in VaryAt
       /\ q.d # "" => IsWmts(q.f)}
 
 \* (the guards are repeated in front of the quantifiers so that TLC does not enumerate the universe in states
